@@ -1379,7 +1379,13 @@ func (cs *ConsensusState) defaultSetProposal(proposal *types.Proposal) error {
 	}
 
 	cs.Proposal = proposal
-	cs.ProposalBlockParts = types.NewPartSetFromHeader(proposal.BlockPartsHeader)
+	// Keep a part set that is already there: after +2/3 prevotes (or precommits) for a block whose
+	// proposal was late, the parts are collected from the header in the votes, and ProposalBlock
+	// may already be assembled from them. Replacing them with an empty set would leave the block
+	// without its parts, and finalizeCommit panics on saving an incomplete part set.
+	if cs.ProposalBlockParts == nil {
+		cs.ProposalBlockParts = types.NewPartSetFromHeader(proposal.BlockPartsHeader)
+	}
 	return nil
 }
 
